@@ -770,15 +770,6 @@ func stringConstTest(f Fact) (x ssa.Value, s string, equal bool, ok bool) {
 	return nil, "", false, false
 }
 
-func keysOf(m map[string]bool) []string {
-	var out []string
-	for k := range m {
-		out = append(out, k)
-	}
-	sort.Strings(out)
-	return out
-}
-
 // c19CheckPanicAddObjects: AddObjects panics on the error of parser F; the upstream producer of the
 // rendered objects (packagerender.parseObjects) must append an object to its result only where F
 // returned a nil error for that same object.
